@@ -1,4 +1,4 @@
-import RlibModel.Model.Iter
+import RlibModel.Model.IterProto
 /-! Line-protocol driver for engine `iter` (property C15).
 
 Cases:  `sub:<ty> x` / `sup:<ty> x`   collected `iter_submasks` / `iter_supermasks` of the mask `x` of type `ty`
@@ -6,12 +6,21 @@ Cases:  `sub:<ty> x` / `sup:<ty> x`   collected `iter_submasks` / `iter_supermas
         `npk K a,b,c`                 `K` successive `next_permutation` calls (digest of all intermediate results)
         `perms a,b,c`                 `iter_permutations(..).collect()`
         `n4|n4d|n8 n m i j`           collected neighbour iterators
+        `it <one of the iterator cases above> ; op ; op ; …`
+                                      a script of `Iterator` method calls on ONE iterator (`sub`, `sup`, `perms`, `n4`, `n4d`, `n8`):
+                                      `next` `hint` `nth K` `take K` `find P` `position P` `any P` `all P` (by `&mut`), then
+                                      `count` `last` `fold` `foreach` `collect` `reduce` `min` `max` `minkey F` `maxkey F` `minby F`
+                                      `maxby F` `sum` `product` (by value); `P` = `eq:E | lt:E | ge:E | par`, `F` = `par | c0`.
+                                      `M` runs std's default bodies (`stdSem`) on the model's sequence, `S` the meaning of the
+                                      methods (`specSem`) on the specification's sequence (`Props/C15.lean`: `provided_methods_spec`).
+                                      `hint` prints `hint=ok`: the harness checks `lo ≤ remaining ≤ hi` itself.
 
 `M` is the model (`iterSubmasks`, `iterSupermasks`, `nextPermutationIdx`, `iterPermutations`, `neighbours`);
 `S` is the specification: the by-definition one (`specSubmasks`, `specSupermasks`, `specNextPermutation`,
 `specPermutations`, `specNeighbours`) where it is cheap enough, else its proved-equal fast form
 (`subsAsc`, `supsAsc`, `nextPermutation`; see `Props/C15.lean`).  Masks with more than 24 free bits and sequences
-longer than 9 are refused by both sides (`refused:too-many-elements`, `S any`): never generated, only a guard
+longer than 9 (unless they have at most 100000 distinct arrangements and at most 64 elements; then `S` is the direct
+enumeration `specPermutationsFast`, proved equal) are refused by both sides (`refused:too-many-elements`, `S any`): never generated, only a guard
 against a stray corpus / replay line asking for 2^64 elements. -/
 open Rlib Rlib.Iter
 
@@ -33,7 +42,150 @@ def showWalk (k : Nat) : Except Panic (List Int × UInt64 × Nat) → String
   | .error e => e.toString
   | .ok (d, h, falses) => s!"steps={k} last={showInts d} falses={falses} h={toHex h.toNat 16}"
 
+/-! ### scripts -/
+
+def parsePred (parseE : String → Option Elem) (tok : String) : Option Pred :=
+  if tok == "par" then some .par else
+  match tok.splitOn ":" with
+  | ["eq", e] => (parseE e).map .eq
+  | ["lt", e] => (parseE e).map .lt
+  | ["ge", e] => (parseE e).map .ge
+  | _ => none
+
+def parseKey : String → Option KeyFn
+  | "par" => some .par
+  | "c0" => some .c0
+  | _ => none
+
+def parseOp (parseE : String → Option Elem) (seg : String) : Op :=
+  let nat (k : String) (f : Nat → Op) : Op := match parseNat? k with | some k => f k | none => .bad
+  let pred (p : String) (f : Pred → Op) : Op := match parsePred parseE p with | some p => f p | none => .bad
+  let key (k : String) (f : KeyFn → Op) : Op := match parseKey k with | some k => f k | none => .bad
+  match tokens seg with
+  | ["next"] => .next
+  | ["hint"] => .hint
+  | ["nth", k] => nat k .nth
+  | ["take", k] => nat k .take
+  | ["find", p] => pred p .find
+  | ["position", p] => pred p .position
+  | ["any", p] => pred p .any
+  | ["all", p] => pred p .all
+  | ["count"] => .count
+  | ["last"] => .last
+  | ["fold"] => .fold
+  | ["foreach"] => .foreach
+  | ["collect"] => .collect
+  | ["reduce"] => .reduce
+  | ["min"] => .min
+  | ["max"] => .max
+  | ["minkey", k] => key k .minkey
+  | ["maxkey", k] => key k .maxkey
+  | ["minby", k] => key k .minby
+  | ["maxby", k] => key k .maxby
+  | ["sum"] => .sum
+  | ["product"] => .product
+  | _ => .bad
+
+def maskElem (t : IntTy) (v : Nat) : Elem := [t.wrap (v : Int)]
+
+def maskKind (t : IntTy) : Kind where
+  showE := fun e => toString (e.headD 0)
+  showC := fun l => showMasks t (l.map (fun e => (wrapU t.bits (e.headD 0)).toNat))
+  sumTy := some t
+
+def permKind : Kind where
+  showE := showInts
+  showC := showPerms
+  sumTy := none
+
+def showCellE (e : Elem) : String := s!"({e.headD 0},{(e.drop 1).headD 0})"
+
+def cellKind : Kind where
+  showE := showCellE
+  showC := fun l => showListWith showCellE l
+  sumTy := none
+
+def cellElem (p : Nat × Nat) : Elem := [(p.1 : Int), (p.2 : Int)]
+
+def parseMaskE (t : IntTy) (s : String) : Option Elem :=
+  match parseInt? s with
+  | some v => if t.fits v then some [v] else none
+  | none => none
+
+def parsePermE (s : String) : Option Elem :=
+  match parseIntsComma? s with
+  | some l => if l.all (fun v => IntTy.i64.fits v) then some l else none
+  | none => none
+
+def parseCellE (s : String) : Option Elem :=
+  match parseNatsComma? s with
+  | some [a, b] => if a < 2 ^ 64 ∧ b < 2 ^ 64 then some [(a : Int), (b : Int)] else none
+  | _ => none
+
+def refused : String := answer "refused:too-many-elements" "any"
+
+/-- `M`: std's default bodies on the model's sequence; `S`: the meaning of the methods on the specification's. -/
+def answerScript (k : Kind) (ops : List Op) (model : Except Panic (List Elem)) (spec : Option (List Elem)) : String :=
+  let m := match model with
+    | .error e => e.toString
+    | .ok l => " ; ".intercalate (runScript stdSem k ops (some l))
+  let s := match spec with
+    | none => "any"
+    | some l => " ; ".intercalate (runScript specSem k ops (some l))
+  answer m s
+
+/-- the arrangements of `d` are few enough to be listed -/
+def permsListable (d : List Int) : Bool :=
+  d.length ≤ 9 || (d.length ≤ 64 && numArrangements d ≤ 100000)
+
+def handleScript (line : String) : String :=
+  match splitOps line with
+  | [] => badLine line
+  | hdr :: segs =>
+  match tokens hdr with
+  | "it" :: base :: args =>
+    match splitTy base, args with
+    | (op, some t), [xs] =>
+      if op != "sub" && op != "sup" then badLine line else
+      match parseInt? xs with
+      | some xi =>
+        let x := (wrapU t.bits xi).toNat
+        let free := if op == "sub" then popcount t.bits x else countZeros t.bits x
+        let ops := segs.map (parseOp (parseMaskE t))
+        if free > 16 ∨ (free > 10 ∧ ops.any Op.isMinMax) then refused else
+        let model := if op == "sub" then iterSubmasks t.bits x else iterSupermasks t.bits x
+        let spec := if op == "sub" then (if x < 256 then specSubmasks x else (subsAsc x).reverse)
+                    else (if t.bits ≤ 8 then specSupermasks t.bits x else supsAsc t.bits x)
+        answerScript (maskKind t) ops (.ok (model.map (maskElem t))) (some (spec.map (maskElem t)))
+      | none => badLine line
+    | ("perms", none), [ds] =>
+      match parseIntsComma? ds with
+      | some d =>
+        let ops := segs.map (parseOp parsePermE)
+        let n := numArrangements d
+        if d.length > 64 ∨ n > 50000 ∨ (n > 1024 ∧ ops.any Op.isMinMax) then refused else
+        let spec := if d.length ≤ 7 then specPermutations d else specPermutationsFast d
+        answerScript permKind ops (iterPermutations d) (some spec)
+      | none => badLine line
+    | (kind, none), [ns, ms, is, js] =>
+      match parseNats? [ns, ms, is, js] with
+      | some [n, m, i, j] =>
+        let offs? := match kind with
+          | "n4" => some offsets4 | "n4d" => some offsets4d | "n8" => some offsets8 | _ => none
+        match offs? with
+        | some offs =>
+          let lim := 2 ^ 63 - 1
+          let inDom := n < lim ∧ m < lim ∧ i < lim ∧ j < lim
+          let ops := segs.map (parseOp parseCellE)
+          answerScript cellKind ops (.ok ((neighbours offs n m i j).map cellElem))
+            (if inDom then some ((specNeighbours offs n m i j).map cellElem) else none)
+        | none => badLine line
+      | _ => badLine line
+    | _, _ => badLine line
+  | _ => badLine line
+
 def handle (line : String) : String :=
+  if line.trimAscii.toString.startsWith "it " then handleScript line else
   match tokens line with
   | [] => badLine line
   | op :: rest =>
@@ -63,7 +215,7 @@ def handle (line : String) : String :=
   | ("npk", none), [ks, ds] =>
     match parseNat? ks, parseIntsComma? ds with
     | some k, some d =>
-      if k > 100000 ∨ d.length > 9 then answer "refused:too-many-elements" "any" else
+      if k > 100000 ∨ d.length > 64 then answer "refused:too-many-elements" "any" else
       let specStep : List Int → Except Panic (List Int × Bool) :=
         fun u => .ok (if u.length ≤ 6 then specNextPermutation u else nextPermutation u)
       answer (showWalk k (walk nextPermutationIdx k d hashInit 0)) (showWalk k (walk specStep k d hashInit 0))
@@ -71,8 +223,9 @@ def handle (line : String) : String :=
   | ("perms", none), [ds] =>
     match parseIntsComma? ds with
     | some d =>
-      if d.length ≤ 9 then
-        answer (showExcept showPerms (iterPermutations d)) (showPerms (specPermutations d))
+      if permsListable d then
+        answer (showExcept showPerms (iterPermutations d))
+          (showPerms (if d.length ≤ 9 then specPermutations d else specPermutationsFast d))
       else answer "refused:too-many-elements" "any"
     | none => badLine line
   | (kind, none), [ns, ms, is, js] =>
